@@ -21,7 +21,7 @@ Set Implicit Arguments.
 
 (* Python objects: [kz] is the position in the total order (what fast_compare_lt/eq can
    see), [kid] the object identity (what the reference count is attached to). *)
-Definition obj := key.
+Notation obj := key (only parsing).
 
 Inductive ntype := NLeaf | NBranch.
 
